@@ -525,6 +525,11 @@ impl Settings {
   }
 
   pub fn first_inscription_height(&self) -> u32 {
+    #[cfg(feature = "verif")]
+    if let Some(height) = crate::verif::overrides::first_inscription_height() {
+      return height;
+    }
+
     if self.integration_test {
       0
     } else {
@@ -533,6 +538,11 @@ impl Settings {
   }
 
   pub fn first_rune_height(&self) -> u32 {
+    #[cfg(feature = "verif")]
+    if let Some(height) = crate::verif::overrides::first_rune_height() {
+      return height;
+    }
+
     if self.integration_test {
       0
     } else {
